@@ -19,10 +19,10 @@ import (
 // The Mongo collection and the glue in client.go are a stub (this driver).
 
 type csState struct {
-	store   *mongo.ChangeStore
-	truth   map[int64]*database.ChangeInfo // op changes only
-	head    int64
-	covered map[int64]bool // model: sequence numbers the cache vouches for
+	store    *mongo.ChangeStore
+	truth    map[int64]*database.ChangeInfo // op changes only
+	head     int64
+	covered  map[int64]bool // model: sequence numbers the cache vouches for
 	failNext bool
 }
 
@@ -189,8 +189,10 @@ func c20snapMonitors(rc *RunCtx) []Monitor {
 
 func init() {
 	Register(&Profile{Name: "c20_change_cache", Property: "C20", Config: c20csConfig, Next: c20csNext, NoQuiesce: true,
-		Monitors:   func(rc *RunCtx) []Monitor { return []Monitor{&csMonitor{prop: "C20"}} },
-		Nontrivial: func(rc *RunCtx) bool { return rc.W.Stats.Probes["cs_read_compared"] >= 3 && rc.W.Stats.Probes["cs_fetch"] > 0 }})
+		Monitors: func(rc *RunCtx) []Monitor { return []Monitor{&csMonitor{prop: "C20"}} },
+		Nontrivial: func(rc *RunCtx) bool {
+			return rc.W.Stats.Probes["cs_read_compared"] >= 3 && rc.W.Stats.Probes["cs_fetch"] > 0
+		}})
 	Register(&Profile{Name: "c20_snapshot_cache", Property: "C20", Config: c20snapConfig, Next: SessionNext, Monitors: c20snapMonitors,
 		Nontrivial: func(rc *RunCtx) bool { return rc.W.Stats.Probes["rebuild_warm_vs_cold_compared"] >= 2 }})
 }
